@@ -474,12 +474,6 @@ class Hist:
                     "limit:holds-more-peer-ids-than-advertised",
                     "E holds current #%s + spares %r > advertised limit %d without closing" % (cur, avail, self.elimit),
                 )
-            for ob in self.obligations:
-                if not ob[3] and self.pup.now > ob[1]:
-                    self.violation(
-                        "replace:retired-id-not-replaced",
-                        "P retired E's ID #%d; no NEW_CONNECTION_ID with a fresh sequence number within 4 PTO" % ob[0],
-                    )
 
     # -------------------------------------------------------------- operations
     def do(self, op):
@@ -699,6 +693,8 @@ class Hist:
                 break
             if self.pup.now - t0 > 8 * pto:
                 break
+            if self.pup.now - t0 > 4 * pto and out["unreplaced"]:
+                break
             self.pup.now += pto / 4
             self.fire_due(0.0)
         self.wh_enabled = saved
@@ -738,7 +734,7 @@ class Hist:
         if out["unreplaced"]:
             self.violation(
                 "replace:retired-id-not-replaced",
-                "P retired E's ID #%d; no NEW_CONNECTION_ID with a fresh sequence number within the fair phase (%.3fs >= 4 PTO)"
+                "P retired E's ID #%d; no NEW_CONNECTION_ID with a fresh sequence number within %.3fs (> 4 PTO) of the fair phase"
                 % (out["unreplaced"][0], self.pup.now - t0),
             )
         late = [s for s in out["unannounced"] if s in self.p_late]
@@ -856,7 +852,7 @@ def history_params(rng):
     prof = {
         "name": name,
         "w": PROFILES[name],
-        "p_illegal": rng.choice([0.0, 0.0, 0.02, 0.06]),
+        "p_illegal": rng.choice([0.0, 0.0, 0.0, 0.01, 0.03]),
         "p_exceed": rng.choice([0.0, 0.05, 0.05, 0.3]),
         "p_other_dcid": rng.choice([0.0, 0.1, 0.4]),
     }
